@@ -71,6 +71,44 @@ class WrappedCallSite {
     return this.callSite.isConstructor()
   }
 
+  // the rest of V8's CallSite API: a handler written for plain call sites must keep working
+
+  isAsync () {
+    return this.callSite.isAsync()
+  }
+
+  isPromiseAll () {
+    return this.callSite.isPromiseAll()
+  }
+
+  getPromiseIndex () {
+    return this.callSite.getPromiseIndex()
+  }
+
+  getScriptHash () {
+    return this.callSite.getScriptHash()
+  }
+
+  getPosition () {
+    return this.callSite.getPosition()
+  }
+
+  getEnclosingLineNumber () {
+    return this.getEnclosingPosition().line
+  }
+
+  getEnclosingColumnNumber () {
+    return this.getEnclosingPosition().column
+  }
+
+  getEnclosingPosition () {
+    return getSourcePathAndLineFromSourceMaps(
+      this.callSite.getFileName(),
+      this.callSite.getEnclosingLineNumber(),
+      this.callSite.getEnclosingColumnNumber()
+    )
+  }
+
   toString () {
     return this.translatePosition(this.callSite.toString())
   }
